@@ -303,8 +303,22 @@ def bel_domain(S, p="", n=2, ns=2, nc=2):
     return res_domain(S, p + "res_", ns, nc) + edrv_domain(S, p + "edrv_", n) + in_frac_monotone(S, p + "edrv_", n)
 
 
+def hyb_tmpl(p="", n=2, ns=2, nc=2):
+    """hybrid unit with a fixed fuel / battery split (fuel_res_ratio = None: the golden-section optimiser of the argmin crate is not entered)"""
+    return {"fc": fc_tmpl(p + "fc_", n), "gen": gen_tmpl(p + "gen_", n), "res": res_tmpl(p + "res_", ns, nc), "edrv": edrv_tmpl(p + "edrv_", n),
+            "fuel_res_split": Sym(p + "split"), "fuel_res_ratio": None, "gss_interval": None, "dt": 0, "i": 1}
+
+
+def hyb_domain(S, p="", n=2, ns=2, nc=2):
+    d = fc_domain(S, p + "fc_", n) + gen_domain(S, p + "gen_", n) + in_frac_monotone(S, p + "gen_", n) + res_domain(S, p + "res_", ns, nc)
+    d += edrv_domain(S, p + "edrv_", n) + in_frac_monotone(S, p + "edrv_", n)
+    d += [(f"{p}fc_pwr_out_max_init <= {p}fc_pwr_out_max", S[p + "fc_pwr_out_max_init"] <= S[p + "fc_pwr_out_max"]),
+          (f"0 <= {p}split <= 1", z3.And(S[p + "split"] >= 0, S[p + "split"] <= 1))]
+    return d
+
+
 def loco_tmpl(kind, p="", n=2, assert_limits=True):
-    pt = Variant("ConventionalLoco", conv_tmpl(p, n)) if kind == "conv" else Variant("BatteryElectricLoco", bel_tmpl(p, n))
+    pt = {"conv": lambda: Variant("ConventionalLoco", conv_tmpl(p, n)), "bel": lambda: Variant("BatteryElectricLoco", bel_tmpl(p, n)), "hyb": lambda: Variant("HybridLoco", hyb_tmpl(p, n))}[kind]()
     return {
         "loco_type": pt,
         "state": auto_state("LocomotiveState", p + "ls_"),
@@ -318,7 +332,7 @@ def loco_tmpl(kind, p="", n=2, assert_limits=True):
 
 
 def loco_domain(S, kind, p="", n=2):
-    d = conv_domain(S, p, n) if kind == "conv" else bel_domain(S, p, n)
+    d = {"conv": conv_domain, "bel": bel_domain, "hyb": hyb_domain}[kind](S, p, n)
     d += [(f"{p}pwr_aux_offset >= 0", S[p + "pwr_aux_offset"] >= 0),
           (f"0 <= {p}pwr_aux_traction_coeff < 1", z3.And(S[p + "pwr_aux_traction_coeff"] >= 0, S[p + "pwr_aux_traction_coeff"] < 1))]
     return d
